@@ -29,6 +29,7 @@ RULE = ("lattice: grids (nelx,nely[,nelz]) x element sizes of the table (2-D: in
         "(3,k),(2,3,k) with k = nodes*dofs for 1..3 dofs per node and the per-node form (...,nodes) repeated per dof, "
         "complete matrices from all impulses; ThermoMechanical for alpha of the table and x*dT. A case is non-trivial if "
         "elements share nodes (nel>1) or dim==3; distinct by (kind, grid, size, material | ndof)")
+RULE += " Extended in seeding rounds 6-7:  valid call after a rejected one (wrong number of dofs per node) on Strain and ElementOperation."
 ASSUMPTIONS = [
     "reference kinematics/Hooke/Gauss integration in pmc/refs/fe.py; Voigt order xx,yy,zz,yz,zx,xy (2-D: xx,yy,xy)",
     "Stress is judged as D_ref times the strain returned by Strain(voigt=True) on the same field ('that strain')",
